@@ -300,11 +300,16 @@ pub fn build<P: Pid>(ap: &AP) -> Built<GenericPacket<P>> {
         AP::Ack { ver, kind, pid, code, props } => {
             let id: P = tryx!(pid_of::<P>(*pid), "packet id too wide");
             macro_rules! ack4 {
-                ($t:ident) => {{
-                    if code.is_some() || props.is_some() {
-                        return Built::Inexpressible("v3.1.1 ack has no reason code".into());
+                ($t:ident, $rc:ident) => {{
+                    if props.is_some() {
+                        return Built::Inexpressible("v3.1.1 ack has no properties".into());
                     }
-                    Built::Ok(tryb!(v3_1_1::$t::<P>::builder().packet_id(id).build()).into())
+                    let mut b = v3_1_1::$t::<P>::builder().packet_id(id);
+                    if let Some(c) = code {
+                        // not part of MQTT v3.1.1, but the library's builder offers it
+                        b = b.reason_code(tryx!($rc::try_from(*c).ok(), "undefined reason code"));
+                    }
+                    Built::Ok(tryb!(b.build()).into())
                 }};
             }
             macro_rules! ack5 {
@@ -325,10 +330,10 @@ pub fn build<P: Pid>(ap: &AP) -> Built<GenericPacket<P>> {
                 }};
             }
             match (ver, kind) {
-                (Ver::V4, AckKind::Puback) => ack4!(GenericPuback),
-                (Ver::V4, AckKind::Pubrec) => ack4!(GenericPubrec),
-                (Ver::V4, AckKind::Pubrel) => ack4!(GenericPubrel),
-                (Ver::V4, AckKind::Pubcomp) => ack4!(GenericPubcomp),
+                (Ver::V4, AckKind::Puback) => ack4!(GenericPuback, PubackReasonCode),
+                (Ver::V4, AckKind::Pubrec) => ack4!(GenericPubrec, PubrecReasonCode),
+                (Ver::V4, AckKind::Pubrel) => ack4!(GenericPubrel, PubrelReasonCode),
+                (Ver::V4, AckKind::Pubcomp) => ack4!(GenericPubcomp, PubcompReasonCode),
                 (Ver::V5, AckKind::Puback) => ack5!(GenericPuback, PubackReasonCode),
                 (Ver::V5, AckKind::Pubrec) => ack5!(GenericPubrec, PubrecReasonCode),
                 (Ver::V5, AckKind::Pubrel) => ack5!(GenericPubrel, PubrelReasonCode),
@@ -562,10 +567,10 @@ pub fn read<P: Pid>(p: &GenericPacket<P>) -> AP {
             props: read_props(c.props()),
             payload: c.payload().as_slice().to_vec(),
         },
-        G::V3_1_1Puback(c) => AP::Ack { ver: Ver::V4, kind: AckKind::Puback, pid: c.packet_id().to_u32_(), code: None, props: None },
-        G::V3_1_1Pubrec(c) => AP::Ack { ver: Ver::V4, kind: AckKind::Pubrec, pid: c.packet_id().to_u32_(), code: None, props: None },
-        G::V3_1_1Pubrel(c) => AP::Ack { ver: Ver::V4, kind: AckKind::Pubrel, pid: c.packet_id().to_u32_(), code: None, props: None },
-        G::V3_1_1Pubcomp(c) => AP::Ack { ver: Ver::V4, kind: AckKind::Pubcomp, pid: c.packet_id().to_u32_(), code: None, props: None },
+        G::V3_1_1Puback(c) => AP::Ack { ver: Ver::V4, kind: AckKind::Puback, pid: c.packet_id().to_u32_(), code: c.reason_code().map(|x| x as u8), props: None },
+        G::V3_1_1Pubrec(c) => AP::Ack { ver: Ver::V4, kind: AckKind::Pubrec, pid: c.packet_id().to_u32_(), code: c.reason_code().map(|x| x as u8), props: None },
+        G::V3_1_1Pubrel(c) => AP::Ack { ver: Ver::V4, kind: AckKind::Pubrel, pid: c.packet_id().to_u32_(), code: c.reason_code().map(|x| x as u8), props: None },
+        G::V3_1_1Pubcomp(c) => AP::Ack { ver: Ver::V4, kind: AckKind::Pubcomp, pid: c.packet_id().to_u32_(), code: c.reason_code().map(|x| x as u8), props: None },
         G::V5_0Puback(c) => AP::Ack { ver: Ver::V5, kind: AckKind::Puback, pid: c.packet_id().to_u32_(), code: c.reason_code().map(|x| x as u8), props: c.props().as_ref().map(|x| read_props(x)) },
         G::V5_0Pubrec(c) => AP::Ack { ver: Ver::V5, kind: AckKind::Pubrec, pid: c.packet_id().to_u32_(), code: c.reason_code().map(|x| x as u8), props: c.props().as_ref().map(|x| read_props(x)) },
         G::V5_0Pubrel(c) => AP::Ack { ver: Ver::V5, kind: AckKind::Pubrel, pid: c.packet_id().to_u32_(), code: c.reason_code().map(|x| x as u8), props: c.props().as_ref().map(|x| read_props(x)) },
@@ -584,8 +589,8 @@ pub fn read<P: Pid>(p: &GenericPacket<P>) -> AP {
         },
         G::V3_1_1Suback(c) => AP::Suback { ver: Ver::V4, pid: c.packet_id().to_u32_(), props: vec![], codes: c.return_codes().iter().map(|x| *x as u8).collect() },
         G::V5_0Suback(c) => AP::Suback { ver: Ver::V5, pid: c.packet_id().to_u32_(), props: read_props(c.props()), codes: c.reason_codes().iter().map(|x| *x as u8).collect() },
-        G::V3_1_1Unsubscribe(c) => AP::Unsubscribe { ver: Ver::V4, pid: c.packet_id().to_u32_(), props: vec![], filters: c.entries().iter().map(|e| e.as_bytes().to_vec()).collect() },
-        G::V5_0Unsubscribe(c) => AP::Unsubscribe { ver: Ver::V5, pid: c.packet_id().to_u32_(), props: read_props(c.props()), filters: c.entries().iter().map(|e| e.as_bytes().to_vec()).collect() },
+        G::V3_1_1Unsubscribe(c) => AP::Unsubscribe { ver: Ver::V4, pid: c.packet_id().to_u32_(), props: vec![], filters: c.entries().iter().map(|e| e.as_str().as_bytes().to_vec()).collect() },
+        G::V5_0Unsubscribe(c) => AP::Unsubscribe { ver: Ver::V5, pid: c.packet_id().to_u32_(), props: read_props(c.props()), filters: c.entries().iter().map(|e| e.as_str().as_bytes().to_vec()).collect() },
         G::V3_1_1Unsuback(c) => AP::Unsuback { ver: Ver::V4, pid: c.packet_id().to_u32_(), props: vec![], codes: vec![] },
         G::V5_0Unsuback(c) => AP::Unsuback { ver: Ver::V5, pid: c.packet_id().to_u32_(), props: read_props(c.props()), codes: c.reason_codes().iter().map(|x| *x as u8).collect() },
         G::V3_1_1Pingreq(_) => AP::Pingreq { ver: Ver::V4 },
